@@ -8,17 +8,15 @@
    (conformance flag `conf`, first non-conformant line `firstBad`) without pruning the search. *)
 EXTENDS PropDefs, Json, IOUtils, TLCExt
 
-VARIABLES l, conf, firstBad
-tvars == <<vars, l, conf, firstBad>>
+VARIABLES l, conf, firstBad, badInfo
+tvars == <<vars, l, conf, firstBad, badInfo>>
 
 Rec == ndJsonDeserialize(IOEnv.TRACE)
 
 \* JSON has no sets: the registry's validator set is logged as an array
 FromLog(st) == [st EXCEPT !.reg.vals = SeqRange(@)]
 
-FeeAny == Zero
-
-TInit == Init /\ l = 1 /\ conf = TRUE /\ firstBad = 0
+TInit == Init /\ l = 1 /\ conf = TRUE /\ firstBad = 0 /\ badInfo = <<>>
 
 TNext ==
   /\ l <= Len(Rec)
@@ -31,6 +29,7 @@ TNext ==
              /\ LET okk == r.obs = ObsOf(wl) IN
                 /\ conf' = (conf /\ okk)
                 /\ firstBad' = IF firstBad = 0 /\ ~okk THEN l ELSE firstBad
+                /\ badInfo' = IF firstBad = 0 /\ ~okk THEN <<"reset: observations differ">> ELSE badInfo
         ELSE /\ w' = wl /\ obs' = r.obs
              /\ ev' = [tx |-> r.tx, ok |-> r.ok, err |-> r.err, fx |-> r.fx]
              /\ g' = [GhostNext(g, w, r.tx, r.ok, wl, r.fx) EXCEPT !.steps = l]
@@ -41,11 +40,16 @@ TNext ==
                            /\ r.obs = ObsOf(wl)
                 IN /\ conf' = (conf /\ okk)
                    /\ firstBad' = IF firstBad = 0 /\ ~okk THEN l ELSE firstBad
+                   /\ badInfo' = IF firstBad = 0 /\ ~okk
+                                 THEN [specOk |-> o.ok, implOk |-> r.ok, specErr |-> o.err,
+                                       fields |-> {f \in DOMAIN wl : o.w[f] # wl[f]},
+                                       fxSame |-> (~r.ok \/ o.fx = r.fx), obsSame |-> (r.obs = ObsOf(wl))]
+                                 ELSE badInfo
 
 TSpec == TInit /\ [][TNext]_tvars
 
 \* fires in the last state: one line with the verdict on conformance
-Report == l <= Len(Rec) \/ PrintT(<<"TRACE-RESULT", [events |-> Len(Rec), conformant |-> conf, firstBad |-> firstBad]>>)
+Report == l <= Len(Rec) \/ (PrintT(<<"TRACE-RESULT", [events |-> Len(Rec), conformant |-> conf, firstBad |-> firstBad]>>) /\ (conf \/ PrintT(<<"FIRST-BAD", badInfo>>)))
 \* the whole log was consumed
 Accepted == TLCGet("stats").diameter - 1 = Len(Rec)
 =============================================================================
